@@ -813,3 +813,95 @@ def run_keypair(repo, res, modules):
                                             f'statement `{norm_stmt_text(blk[j])}` uses `{k2[0]}` throughout: copy-paste signature', {}))
                         break
     return n
+
+
+# differences between near-clone methods that are the point of having two classes: (method, regex on the differing statement)
+CLONE_PAIR_ACCEPTED = [
+    ('calc_background', r'^result = '), ('calc_background_rms', r'^result = '),
+    ('__getitem__', r'^init_attr = '),
+    ('__init__', r'^self\._norm_radius = norm_radius$'),
+    ('compute_interpolator', r'^[xy] = (div\()?arange\(self\._n[xy],dtype=float\)'),
+    ('_validate_array', r'^test '),
+    ('covariance_eigvals', r'^eigvals = empty\(\(self\.(nlabels|n_apertures),2\)\)$'),
+    ('moments_central', r'_moment_data_cutouts?,'),
+    ('mag', r"^warnings\.simplefilter\('ignore',category=RuntimeWarning\)$"),
+]
+
+
+def run_clone_pairs(repo, res, modules, threshold=0.8):
+    """Sibling cross-check inside a module set: two classes' same-named methods whose statements agree to >= threshold are
+    copies of one routine; whatever differs must be in the accepted table (the one statement the classes exist to vary)."""
+    import itertools
+    classes = [c for c in repo.classes.values() if c.module.name in modules]
+    own = {c.fullname: {n: fs[0] for n, fs in c.methods.items() if not fs[0].is_setter} for c in classes}
+    cache = {}
+
+    def st(f):
+        if f.fullname not in cache:
+            cache[f.fullname] = _clone_stmts(f)
+        return cache[f.fullname]
+    n = 0
+    for a, b in itertools.combinations(classes, 2):
+        for name in sorted(set(own[a.fullname]) & set(own[b.fullname])):
+            fa, fb = own[a.fullname][name], own[b.fullname][name]
+            sa_, sb = st(fa), st(fb)
+            ta, tb = [s for s, _ in sa_], [s for s, _ in sb]
+            if max(len(ta), len(tb)) < 4:
+                continue
+            sim = len([s for s in ta if s in tb]) / max(len(ta), len(tb))
+            if sim < (max(threshold, 0.9) if name == '__init__' else threshold):     # constructors differ by design
+                continue
+            pats = [re.compile(p) for m_, p in CLONE_PAIR_ACCEPTED if m_ == name]
+            diffs = [(s, node, fa) for s, node in sa_ if s not in tb and not any(p.search(s) for p in pats)] + \
+                    [(s, node, fb) for s, node in sb if s not in ta and not any(p.search(s) for p in pats)]
+            n += 1
+            res.oblige('CLONE', f'{a.name}.{name} and {b.name}.{name} (copies of one routine) agree', not diffs, nontrivial=True,
+                       sample={'method': name, 'classes': [a.name, b.name], 'similarity': round(sim, 2)})
+            for s, node, owner in diffs:
+                other = b.name if owner is fa else a.name
+                res.add(Finding('CLONE', owner.fullname, f'{name}: {s[:100]}', f'{owner.module.relpath}:{node.lineno}',
+                                f'{owner.qualname} is a copy of {other}.{name} ({int(sim * 100)}% of the statements agree) but has '
+                                f'`{s[:120]}` which the sibling lacks: the two classes no longer treat their input alike', {}))
+    return n
+
+
+def run_truthy_none(repo, res, modules):
+    """An optional numeric parameter (default None) is tested with `is None` / `is not None`: a truthiness test (`if p:`) treats a
+    valid 0 like 'not given'."""
+    n = 0
+    for f in repo.functions.values():
+        if f.module.name not in modules:
+            continue
+        a = f.node.args
+        pos = a.posonlyargs + a.args
+        defaults = dict(zip([x.arg for x in pos[len(pos) - len(a.defaults):]], a.defaults))
+        defaults.update({x.arg: d for x, d in zip(a.kwonlyargs, a.kw_defaults) if d is not None})
+        optional = {p for p, d in defaults.items() if isinstance(d, ast.Constant) and d.value is None}
+        if not optional:
+            continue
+        numeric = set()
+        for nd in ast.walk(f.node):
+            if isinstance(nd, ast.Compare) and any(isinstance(o, (ast.Lt, ast.LtE, ast.Gt, ast.GtE)) for o in nd.ops):
+                for side in [nd.left] + nd.comparators:
+                    if isinstance(side, ast.Name) and side.id in optional:
+                        numeric.add(side.id)
+        for p in sorted(numeric):
+            bad = []
+            for nd in ast.walk(f.node):
+                tests = []
+                if isinstance(nd, (ast.If, ast.While, ast.IfExp)):
+                    tests = [nd.test]
+                for t in tests:
+                    parts = t.values if isinstance(t, ast.BoolOp) else [t]
+                    for x in parts:
+                        if isinstance(x, ast.UnaryOp) and isinstance(x.op, ast.Not):
+                            x = x.operand
+                        if isinstance(x, ast.Name) and x.id == p:
+                            bad.append(nd)
+            n += 1
+            res.oblige('TRUTHY', f'{f.qualname}: optional numeric `{p}` is tested against None, not by truthiness', not bad, nontrivial=True)
+            for nd in bad:
+                res.add(Finding('TRUTHY', f.fullname, f'truthiness test of {p}', f'{f.module.relpath}:{nd.lineno}',
+                                f'{f.qualname}: `{unparse(nd.test, 60)}` tests the optional numeric parameter `{p}` by truthiness: an '
+                                f'explicit 0 is treated as "not given" and silently replaced by the default', {}))
+    return n
